@@ -803,6 +803,18 @@ func runStress(r *hx.Run, f []string) {
 		stressWG(r, f)
 	case "sizes":
 		stressSizes(r, f)
+	case "stack":
+		stressStack(r, f)
+	case "stackforced":
+		stressStackForced(r, f)
+	case "stackvar":
+		stressStackVar(r, f)
+	case "stacksorted":
+		stressStackSorted(r, f)
+	case "dvzero":
+		stressDVZero(r, f)
+	case "evictmax":
+		stressEvictMax(r, f)
 	default:
 		r.Line(strings.Join(f, " "), "bad-op")
 	}
